@@ -145,6 +145,35 @@ def chain_restore_case():
                     ["rest"]]}
 
 
+def chain_interleavings():
+    """directed interleavings on the chain topology (trough A -> launcher B -> lock C): a second request is issued at every
+    tick from before B's eject until after the fate of B's ball is known, with B's ball falling back into B or arriving
+    late in C.  While B is in ball_left/failed_confirm its own ball can still come back: A must not fire at B in that
+    window (physical truth: B would hold two balls)."""
+    g = bw.GRID
+    out = []
+    for oc in ("fallback", "late"):
+        for w in range(8, 44):
+            second = ["request_lock"] if w % 2 == 0 else ["add_ball"]
+            out.append({"p": {"topo": "chain", "slots": 3, "balls": 2, "tries_trough": 3, "tries_plunger": 3, "tries_lock": 3,
+                              "eject_to": 2000, "missing_to": 4000, "idle_to": 2000},
+                        "timing": {"leave": g, "transit": 4 * g, "fallback": 24 * g, "late": 8 * g, "pf_switch": False},
+                        "outcomes": {"plunger": [oc]}, "ops": [["request_lock"], ["wait", w], second, ["rest"]]})
+    return out
+
+
+def two_requesters_case():
+    """directed history of the two-requesters class: the eject hole (lock, fed from the playfield, listed BEFORE the plunger
+    in the config) holds a stale queued request ("eject the next ball you get"), the plunger holds a queued playfield
+    request while the trough is empty; a ball drains into the trough: `balldevice_balls_available` must reach the plunger
+    although the lock's request cannot be served from there"""
+    g = bw.GRID
+    return {"p": {"topo": "std", "slots": 3, "balls": 1, "tries_trough": 3, "tries_plunger": 3, "tries_lock": 3,
+                  "eject_to": 2000, "missing_to": 4000, "idle_to": 2000, "lock_first": True},
+            "timing": {"leave": g, "transit": 4 * g, "fallback": 6 * g, "late": 8 * g, "pf_switch": True}, "outcomes": {},
+            "ops": [["add_ball"], ["rest"], ["stale_release"], ["add_ball"], ["rest"], ["drain"], ["rest"]]}
+
+
 def gen_chain_case(r):
     """random histories on the chain topology: requests to the lock (two hops) and to the playfield, first-hop losses
     (astray), drains bringing the lost balls back at any later time"""
